@@ -293,6 +293,11 @@ def case_key(c):
             tuple(round(s, 3) for s in c["step_px"]), c["com"], tuple(c["descan"]))
 
 
+# the "strictly larger at a perturbed probe" clause is judged only where the reference simulator says the
+# perturbation changes the predicted amplitudes by more than this (relative, squared)
+PROBE_OBSERVABLE = 1e-5
+
+
 class CaseResult(dict):
     pass
 
@@ -358,6 +363,11 @@ def run_case(c: dict, want_arrays=False) -> CaseResult:
         param = np.roll(param, sh, axis=(-2, -1))
         trans = np.roll(trans, sh, axis=(-2, -1))
     data = sim.simulate(trans, psi_k, simpos, recip, energy, c["thick"])
+    # is the probe perturbation observable at all?  (small objects with a coarse Fourier lattice and a small
+    # aperture give non-overlapping discs: the patterns are then blind to any phase put on the probe.)  The
+    # independent simulator decides: relative change of the amplitudes it predicts for the perturbed probe.
+    data_pp = sim.simulate(trans, perturb_probe(c, psi_k), simpos, recip, energy, c["thick"])
+    res["probe_pert_observable"] = float(((np.sqrt(data_pp) - np.sqrt(data)) ** 2).sum() / max(float(data.sum()), 1e-300))
     sums = data.sum(axis=(-2, -1))
     res["pattern_sum_dev"] = float(np.abs(sums / I0 - 1).max())
     if c["descan"] != [0, 0]:
@@ -457,7 +467,8 @@ def oracle(res: CaseResult, claim_zero=True):
                                 lt, v["gt"], v["pert_obj"], v["pert_probe"], v["gt"] / max(ref, 1e-300), zr[lt],
                                 c["kind"], c["slices"], c["modes"], c["roi"], c["gpts"], [round(s, 3) for s in c["step_px"]],
                                 c["pad"], res["obj_shape"], c["com"])))
-            if not (v["pert_obj"] > 10 * v["gt"] and v["pert_probe"] > 10 * v["gt"]):
+            probe_seen = res.get("probe_pert_observable", 1.0) > PROBE_OBSERVABLE
+            if not (v["pert_obj"] > 10 * v["gt"] and (v["pert_probe"] > 10 * v["gt"] or not probe_seen)):
                 bad.append(("loss-not-larger-at-perturbation/%s" % lt,
                             "%s: ground truth %.6g, perturbed object %.6g, perturbed probe %.6g" % (lt, v["gt"], v["pert_obj"], v["pert_probe"])))
     if claim_zero and "norm_path" in res:
@@ -699,6 +710,8 @@ def run(ctx: Ctx):
             ctx.dist("padding_requested/%s" % ("zero" if c["pad"] == [0, 0] else "nonzero"))
             ctx.dist("batch_size/%s" % ("divides" if npos % res["batch"]["l2_amplitude"]["batch"] == 0 else "non-dividing"))
             ctx.dist("orthogonalize_probe/%s" % c["orthogonalize"])
+            ctx.dist("probe_perturbation/%s" % ("observable" if res.get("probe_pert_observable", 1.0) > PROBE_OBSERVABLE
+                                                else "unobservable (clause not judged)"))
             claim = family in ("main", "constant")
             if family == "constant":
                 met = max(abs(res["com_dev"][0]), abs(res["com_dev"][1])) <= COM_PRECONDITION and not c.get("no_symmetric_geometry")
